@@ -797,6 +797,19 @@ func corpusClasses() []FileDef {
 			Const{Name: "ApSouth", Val: "1", Cells: []Cell{str(ks, "_", "Ap-S1"), str(kS, "_", "zone-b")}},
 			Const{Name: "Unknown", Val: "2", Cells: []Cell{str(ks, "_", "XX"), str(kS, "_", "ZONE-C")}}),
 	}})
+	// B0. ONE parsable trait of a 64-bit unsigned type (uint, then uint64) with cells at and above 2^63 and no signed
+	//     trait next to it: the wrap-around neighbours (-1, -2^63, ..) are held by no other cell, so they must be
+	//     rejected whatever reading family the decoders use for the type (round 8, C05-81)
+	for _, k := range []colKind{kindByID("uint"), kindByID("uint64")} {
+		ob0 := defaultOpts()
+		ob0.Parsable = []string{"Cnt"}
+		out = append(out, FileDef{Kind: "corpus", Opts: ob0, Traits: true, Enums: []EnumDef{
+			traitEnum("E0", uByName("int"), 0, []TypeInfo{typeInfoOf(k)},
+				Const{Name: "High", Val: "0", Cells: []Cell{num(k, "_Cnt", "18446744073709551615")}},
+				Const{Name: "Half", Val: "1", Cells: []Cell{num(k, "_", "9223372036854775808")}},
+				Const{Name: "Some", Val: "2", Cells: []Cell{num(k, "_", "7")}}),
+		}})
+	}
 	// B. integer traits at the extremes of their types and at the int64/uint64 seam (64-bit kinds)
 	ob := defaultOpts()
 	ob.Parsable = []string{"Mask", "Off", "Cnt", "Idx", "Lit"}
